@@ -56,3 +56,30 @@ package cstate
 //@   loop 2:
 //@     invariant rawdb.cstateAt(s.db, to) != nil ==> !has(valInfosCache, common.hashOfBytes(content(rawdb.cstateAt(s.db, to).LastValidatorsInfoHash))) && !has(valInfosCache, common.hashOfBytes(content(rawdb.cstateAt(s.db, to).ValidatorsInfoHash))) && !has(valInfosCache, common.hashOfBytes(content(rawdb.cstateAt(s.db, to).NextValidatorsInfoHash)))
 //@     invariant rawdb.cstateAt(s.db, 0) != nil ==> !has(valInfosCache, common.hashOfBytes(content(rawdb.cstateAt(s.db, 0).LastValidatorsInfoHash))) && !has(valInfosCache, common.hashOfBytes(content(rawdb.cstateAt(s.db, 0).ValidatorsInfoHash))) && !has(valInfosCache, common.hashOfBytes(content(rawdb.cstateAt(s.db, 0).NextValidatorsInfoHash)))
+
+// ---------------------------------------------------------------- C14: what Save leaves in the store
+//@ trusted func (state *LatestBlockState) ToProto() (r *kstate.State, err error)
+//@   ensures err == nil ==> fresh(r)
+//@ trusted func saveConsensusParamsInfo(db kaidb.KeyValueWriter, lastHeightChanged uint64, params kproto.ConsensusParams) (r common.Hash)
+
+// One record: keyed by the set's Hash(), holding every member's priority.
+//@ func saveValidatorsInfo(db kaidb.KeyValueWriter, lastHeightChanged uint64, valSet *types.ValidatorSet) (r common.Hash)
+//@   for C14
+//@   requires valSet != nil ==> (forall i int :: 0 <= i && i < len(valSet.Validators) ==> valSet.Validators[i] != nil) && len(valSet.Validators) > 0
+//@   modifies db.vprio
+//@   ensures [keyIsSetHash] valSet != nil ==> r == types.valsKey(valSet)
+//@   ensures [otherRecordsUntouched] forall k mathint :: k != rawdb.recKey(r) ==> db.vprio[k] == old(db.vprio)[k]
+//@   ensures [recordHoldsPriorities] valSet != nil ==> (forall i int :: 0 <= i && i < len(valSet.Validators) ==> db.vprio[rawdb.recKey(r)][i] == valSet.Validators[i].ProposerPriority)
+
+// After saving the state of a height >= 1, whose current set was stored by the previous Save (as that
+// state's next set), the record the saved state points to for its CURRENT validator set must still
+// hold the current set's priorities: that is what Load will read back.
+//@ func saveState(db kaidb.KeyValueStore, state LatestBlockState)
+//@   for C14
+//@   uses recKeyInjective
+//@   requires state.LastBlockHeight >= 1 && state.Validators != nil && state.NextValidators != nil && state.LastValidators != nil
+//@   requires (forall i int :: 0 <= i && i < len(state.NextValidators.Validators) ==> state.NextValidators.Validators[i] != nil) && len(state.NextValidators.Validators) > 0
+//@   requires [previousSaveStoredCurrentSet] forall i int :: 0 <= i && i < len(state.Validators.Validators) ==> kaidb.KeyValueWriter(db).vprio[rawdb.recKey(types.valsKey(state.Validators))][i] == state.Validators.Validators[i].ProposerPriority
+//@   modifies *
+//@   ensures [nextSetStored] forall i int :: 0 <= i && i < len(state.NextValidators.Validators) ==> kaidb.KeyValueWriter(batch).vprio[rawdb.recKey(types.valsKey(state.NextValidators))][i] == state.NextValidators.Validators[i].ProposerPriority
+//@   ensures [currentSetSurvivesSave] forall i int :: 0 <= i && i < len(state.Validators.Validators) ==> kaidb.KeyValueWriter(batch).vprio[rawdb.recKey(types.valsKey(state.Validators))][i] == state.Validators.Validators[i].ProposerPriority
